@@ -7,6 +7,8 @@ import random
 import sys
 
 sys.path.insert(0, os.path.dirname(__file__))
+if os.environ.get("VERIF_REPO"):
+    sys.path.insert(0, os.environ["VERIF_REPO"])   # seeded-defect runs: import the library from a scratch worktree
 import bn  # noqa: E402
 
 
